@@ -272,6 +272,8 @@ func C04(p *core.Program, r *core.Report) {
 	// says: no pass rewrites the clone before the walk, except the two reviewed removal passes
 	// (shared with C18-T7)
 	checkConvertWalksFaithfulClone(p, r, "V6")
+	// ---- V7: what the foreign-content pass of C05-S4 may turn into ordinary text
+	checkForeignUnwrapKeeps(p, r, "V7")
 	for _, fn := range outputFuncs(p) {
 		for i, o := range outputReturns(p, fn) {
 			if o.textOnly != 1 {
